@@ -6,9 +6,9 @@ CONSTANTS
   MaxEntries = 6
   PoolSize = 3
   BatchDisabled = FALSE
-  FixNotif = FALSE
+  FixNotif = TRUE
   FixNonRequest = FALSE
-  FixLongWs = FALSE
+  FixLongWs = TRUE
   FarChoices = {FALSE}
 INIT MBTInit
 NEXT MBTNext
